@@ -207,7 +207,7 @@ CLAIMED = {
         text="Lean 4 theorems over the engine model for every rule list and every operator interpretation: skip:N passes "
              "over exactly the next N eligible rules; skipAfter resumes right after the first eligible marker; no skip/"
              "skipAfter/allow:phase survives the phase; nothing is evaluated while allow covers the phase; the logging phase "
-             "still evaluates after a bare allow; allow is not enforced unless the engine is On; an incomplete chain runs no "
+             "still evaluates after a bare allow and stops under allow:phase; a later allow replaces the scope of an earlier one and changes nothing else (C08_later_allow_replaces); allow is not enforced unless the engine is On; an incomplete chain runs no "
              "disruptive/flow action. Tied to /repo by the `eng` correspondence (profile flow).",
         note=_ENG_NOTE, ref="6/C08", engine="eng"),
     "C10": dict(
